@@ -473,6 +473,12 @@ def run(ck: Check):
         for _ in range(80 if thorough else 16):
             case = G.gen_case(rng, rng.choice([3, 4, 5]), subst=rng.choice(["JC69", "HKY", "GTR", "LG"]), indices=True)
             run_case(ck, drv, torch, case, failures, "site-pattern-indices")
+        # the whole spelling class of `indices` (negative ints esp. -1, negative slice starts / stops / steps, clamped bounds, mixed lists)
+        base_c = G.gen_case(rng, 4, subst=rng.choice(["HKY", "LG"]), site="constant", rooting="unrooted", nsites=rng.randint(7, 10), special=False)
+        for sp in G.index_spellings(min(len(x) for x in base_c["seqs"].values()), rng):
+            case = dict(base_c, indices=sp)
+            if G.site_symbols(case):
+                run_case(ck, drv, torch, case, failures, "site-pattern-indices/spellings")
         # ---- PER-SYMBOL sweep: every symbol of every alphabet (both cases, aliases, ambiguity codes, gap / unknown, characters
         #      outside the alphabet) at the tips of a fixed tree, x {tip states, partials without / with ambiguities}, vs oracle
         for dtn, sub, symbols, plain, extra in symbol_sweep_plan(rng):
